@@ -18,14 +18,18 @@
               (fid ...)                                  the functions instantiated by main's body, in the order of
                                                          their block labels "name#k" (ids = rank of the name; only
                                                          for programs whose function names are unique by construction)
-              (k ...)  (k ...) )                         the instance numbers k observed with a fresh Compiler and
+              (k ...)  (k ...)                           the instance numbers k observed with a fresh Compiler and
                                                          at the 2nd compilation with a reused one
    output = ( (m ...)      m = 1 iff that observed sequence is in {blocks (compile o p) | o}
               ge           1 iff the model's set is at least as large as the observed one
               single       (|set| = 1) when check_single, else 2
               (r ...)      r = 1 iff that reuse sequence is in {blocks (compile_again o o p) | o}
-              f  g )       1 iff the model's instance numbers (ast.Func.NumInstances) equal the observed ones,
+              f  g         1 iff the model's instance numbers (ast.Func.NumInstances) equal the observed ones,
                            fresh resp. reused
+              u  d )       u = 1 iff the names of the constant table (9th input: ((name bits) ...), the entries of
+                           ssa.Program.Constants after CompileSSA) are pairwise different - the hypothesis of
+                           C08_define_constants; d = 1 iff define_constants gives the same wiring for the table
+                           and for its reversal
 
    The set is computed by enumerating every import order of every package
    (oracle_of_table over all_tables) in the model of the CURRENT source
@@ -94,6 +98,25 @@ Fixpoint dedupe (l : list (list block3)) : list (list block3) :=
 Definition blocks_of_sx (s : sx) : list block3 :=
   map (fun b => (getN (nthx 0 b), getnat (nthx 1 b), getnat (nthx 2 b))) (getL s).
 
+(* the hypothesis of C08_define_constants, checked on the implementation's constant table *)
+Fixpoint nodupN (l : list N) : bool :=
+  match l with
+  | [] => true
+  | x :: t => negb (existsb (N.eqb x) t) && nodupN t
+  end.
+
+Definition iconst_eqb (a b : item) : bool :=
+  match a, b with
+  | IConst n w k, IConst n' w' k' => N.eqb n n' && Nat.eqb w w' && Nat.eqb k k'
+  | _, _ => false
+  end.
+Fixpoint listing_eqb (a b : listing) : bool :=
+  match a, b with
+  | [], [] => true
+  | x :: s, y :: t => iconst_eqb x y && listing_eqb s t
+  | _, _ => false
+  end.
+
 Definition run_c08 (inp : sx) : sx :=
   let ps := map pkg_of_sx (getL (nthx 0 inp)) in
   let mid := getN (nthx 1 inp) in
@@ -103,6 +126,7 @@ Definition run_c08 (inp : sx) : sx :=
   let calls := map (fun f => (0%N, f)) (getLN (nthx 5 inp)) in
   let inst_fresh := getLnat (nthx 6 inp) in
   let inst_reuse := getLnat (nthx 7 inp) in
+  let ctable := map (fun e => (getN (nthx 0 e), getnat (nthx 1 e))) (getL (nthx 8 inp)) in
   match find_pkg ps mid with
   | None => sx_err 1
   | Some main0 =>
@@ -116,5 +140,7 @@ Definition run_c08 (inp : sx) : sx :=
            (if check then ofB (Nat.eqb (length set) 1) else SZ 2);
            SL (map (fun ob => ofB (mem_blocks ob rset)) reuse);
            ofB (nats_eqb (insts_of (compile cls o_id (main, ps))) inst_fresh);
-           ofB (nats_eqb (insts_of (compile_again cls o_id o_id (main, ps))) inst_reuse) ]
+           ofB (nats_eqb (insts_of (compile_again cls o_id o_id (main, ps))) inst_reuse);
+           ofB (nodupN (map fst ctable));
+           ofB (listing_eqb (define_constants ctable) (define_constants (rev ctable))) ]
   end.
